@@ -239,6 +239,12 @@ func (loader *Loader) ResolveRefsIn(doc *T, location *url.URL) (err error) {
 				return
 			}
 		}
+		for _, name := range componentNames(components.Links) {
+			component := components.Links[name]
+			if err = loader.resolveLinkRef(doc, component, location); err != nil {
+				return
+			}
+		}
 		for _, name := range componentNames(components.Callbacks) {
 			component := components.Callbacks[name]
 			if err = loader.resolveCallbackRef(doc, component, location); err != nil {
@@ -663,6 +669,46 @@ func (loader *Loader) resolveHeaderRef(doc *T, component *HeaderRef, documentPat
 			return err
 		}
 	}
+	for _, name := range componentNames(value.Examples) {
+		if err := loader.resolveExampleRef(doc, value.Examples[name], documentPath); err != nil {
+			return err
+		}
+	}
+	if err := loader.resolveContentRefs(doc, value.Content, documentPath); err != nil {
+		return err
+	}
+	return nil
+}
+
+// resolveContentRefs resolves the schema, examples and encoding headers of each media type.
+func (loader *Loader) resolveContentRefs(doc *T, content Content, documentPath *url.URL) error {
+	for _, name := range componentNames(content) {
+		contentType := content[name]
+		if contentType == nil {
+			continue
+		}
+		for _, name := range componentNames(contentType.Examples) {
+			if err := loader.resolveExampleRef(doc, contentType.Examples[name], documentPath); err != nil {
+				return err
+			}
+		}
+		if schema := contentType.Schema; schema != nil {
+			if err := loader.resolveSchemaRef(doc, schema, documentPath, []string{}); err != nil {
+				return err
+			}
+		}
+		for _, name := range componentNames(contentType.Encoding) {
+			encoding := contentType.Encoding[name]
+			if encoding == nil {
+				continue
+			}
+			for _, name := range componentNames(encoding.Headers) {
+				if err := loader.resolveHeaderRef(doc, encoding.Headers[name], documentPath); err != nil {
+					return err
+				}
+			}
+		}
+	}
 	return nil
 }
 
@@ -715,16 +761,16 @@ func (loader *Loader) resolveParameterRef(doc *T, component *ParameterRef, docum
 	if value.Content != nil && value.Schema != nil {
 		return errors.New("cannot contain both schema and content in a parameter")
 	}
-	for _, name := range componentNames(value.Content) {
-		contentType := value.Content[name]
-		if schema := contentType.Schema; schema != nil {
-			if err := loader.resolveSchemaRef(doc, schema, documentPath, []string{}); err != nil {
-				return err
-			}
-		}
+	if err := loader.resolveContentRefs(doc, value.Content, documentPath); err != nil {
+		return err
 	}
 	if schema := value.Schema; schema != nil {
 		if err := loader.resolveSchemaRef(doc, schema, documentPath, []string{}); err != nil {
+			return err
+		}
+	}
+	for _, name := range componentNames(value.Examples) {
+		if err := loader.resolveExampleRef(doc, value.Examples[name], documentPath); err != nil {
 			return err
 		}
 	}
@@ -777,23 +823,8 @@ func (loader *Loader) resolveRequestBodyRef(doc *T, component *RequestBodyRef, d
 		return nil
 	}
 
-	for _, name := range componentNames(value.Content) {
-		contentType := value.Content[name]
-		if contentType == nil {
-			continue
-		}
-		for _, name := range componentNames(contentType.Examples) {
-			example := contentType.Examples[name]
-			if err := loader.resolveExampleRef(doc, example, documentPath); err != nil {
-				return err
-			}
-			contentType.Examples[name] = example
-		}
-		if schema := contentType.Schema; schema != nil {
-			if err := loader.resolveSchemaRef(doc, schema, documentPath, []string{}); err != nil {
-				return err
-			}
-		}
+	if err := loader.resolveContentRefs(doc, value.Content, documentPath); err != nil {
+		return err
 	}
 	return nil
 }
@@ -850,24 +881,8 @@ func (loader *Loader) resolveResponseRef(doc *T, component *ResponseRef, documen
 			return err
 		}
 	}
-	for _, name := range componentNames(value.Content) {
-		contentType := value.Content[name]
-		if contentType == nil {
-			continue
-		}
-		for _, name := range componentNames(contentType.Examples) {
-			example := contentType.Examples[name]
-			if err := loader.resolveExampleRef(doc, example, documentPath); err != nil {
-				return err
-			}
-			contentType.Examples[name] = example
-		}
-		if schema := contentType.Schema; schema != nil {
-			if err := loader.resolveSchemaRef(doc, schema, documentPath, []string{}); err != nil {
-				return err
-			}
-			contentType.Schema = schema
-		}
+	if err := loader.resolveContentRefs(doc, value.Content, documentPath); err != nil {
+		return err
 	}
 	for _, name := range componentNames(value.Links) {
 		link := value.Links[name]
